@@ -11,8 +11,17 @@ import (
 	"sort"
 	"strings"
 	"sync"
+	"sync/atomic"
 	"time"
 )
+
+// saturated is set once enough witnesses of violations have been collected:
+// the remaining cases of a run are skipped (the verdict cannot change any more,
+// and a hang-type defect must not cost minutes per case).
+var saturated atomic.Bool
+
+func IsSaturated() bool { return saturated.Load() }
+
 
 // Out is where verdict lines go (the library itself prints diagnostics to os.Stdout, which main silences).
 var Out io.Writer = os.Stdout
@@ -99,13 +108,14 @@ type Run struct {
 	known       *KnownFile
 	MaxSamples  int
 	Exhaustive  bool
+	SaturateAt  int
 	broken      []string
 }
 
 func NewRun(prop, tier string, seed int64, level string) *Run {
 	return &Run{Prop: prop, Tier: tier, Seed: seed, Level: level, start: time.Now(),
 		Distinct: map[string]bool{}, Extra: map[string]any{}, Counters: map[string]int{},
-		KnownHits: map[string]int{}, known: LoadKnown(), MaxSamples: 3}
+		KnownHits: map[string]int{}, known: LoadKnown(), MaxSamples: 3, SaturateAt: envInt("VERIF_SATURATE", 40)}
 }
 
 // NewPartialRun is used inside child processes: known findings are applied by the parent only.
@@ -113,6 +123,16 @@ func NewPartialRun(prop, tier string, seed int64) *Run {
 	r := NewRun(prop, tier, seed, "")
 	r.known = &KnownFile{}
 	return r
+}
+
+func envInt(name string, def int) int {
+	if v := os.Getenv(name); v != "" {
+		n := 0
+		if _, err := fmt.Sscan(v, &n); err == nil && n > 0 {
+			return n
+		}
+	}
+	return def
 }
 
 func (r *Run) Eval(n int) { r.mu.Lock(); r.Evaluations += n; r.mu.Unlock() }
@@ -180,6 +200,9 @@ func (r *Run) AddViolation(v *Violation) {
 	if n < 3 && len(r.Violations) < 12 {
 		r.Violations = append(r.Violations, v)
 	}
+	if r.Counters["violations_total"] >= r.SaturateAt {
+		saturated.Store(true)
+	}
 }
 
 // Partial is what a child process hands back to its parent.
@@ -191,17 +214,26 @@ type Partial struct {
 	Violations  []*Violation   `json:"violations"`
 	Inconcl     []string       `json:"inconclusive"`
 	Extra       map[string]any `json:"extra"`
+	Complete    bool           `json:"complete"`
 }
 
 func (r *Run) ToPartial() *Partial {
 	r.mu.Lock()
 	defer r.mu.Unlock()
-	p := &Partial{Evaluations: r.Evaluations, Samples: r.Samples, Counters: r.Counters, Inconcl: r.Inconcl, Extra: r.Extra}
+	// deep copies: the result is marshalled outside the lock while workers keep counting
+	p := &Partial{Evaluations: r.Evaluations, Counters: map[string]int{}, Extra: map[string]any{}}
+	p.Samples = append(p.Samples, r.Samples...)
+	p.Inconcl = append(p.Inconcl, r.Inconcl...)
+	for k, v := range r.Counters {
+		p.Counters[k] = v
+	}
+	for k, v := range r.Extra {
+		p.Extra[k] = v
+	}
 	for d := range r.Distinct {
 		p.Distinct = append(p.Distinct, d)
 	}
-	// children do not apply known findings: re-emit everything incl. those matched
-	p.Violations = r.Violations
+	p.Violations = append(p.Violations, r.Violations...)
 	return p
 }
 
